@@ -226,12 +226,11 @@ def afterLastBar (t : Txt) : Txt := (t.reverse.takeWhile (· != 124)).reverse
 def parseNatList (t : Txt) : Option (List Nat) :=
   match skipSpaces t with
   | 91 :: r =>
-    match r.reverse with
-    | 93 :: body =>
-      let items := (splitOn 44 body.reverse).map skipSpaces
+    if r.getLast? = some 93 then
+      let items := (splitOn 44 r.dropLast).map skipSpaces
       if items = [[]] then some [] else
       mapM' (fun i => match parseNatPre i with | some (n, []) => some n | _ => none) items
-    | _ => none
+    else none
   | _ => none
 
 /-- one line of the LCD list: `number | latency | instruction | [lines]` -/
